@@ -1,6 +1,7 @@
 package checks
 
 import (
+	"bytes"
 	"fmt"
 	"sort"
 	"testing"
@@ -115,6 +116,23 @@ func TestC03(t *testing.T) {
 					if !yield(encodeDoc(vals, ch)) {
 						return
 					}
+				}
+			}
+		}
+	})
+	// scalars above 64 KiB nested in containers, followed by siblings and by
+	// further top-level values (the reader takes them in through another path)
+	Enumerate(t, p, "big-nested-scalars", func(yield func(DocCase) bool) {
+		big := bytes.Repeat([]byte("0123456789abcdef"), 4400) // 70 400 bytes
+		docs := [][]model.Value{
+			{model.ListV(model.BlobV(big), model.Int64V(1)), model.Int64V(2), model.SymV(model.S("name"))},
+			{model.StructV(model.Field{Name: model.S("name"), Val: model.StrV(string(big[:66000]))}, model.Field{Name: model.S("version"), Val: model.ListV(model.ClobV(big[:65537]), model.Int64V(3))}), model.Int64V(4)},
+			{model.SexpV(model.SexpV(model.StrV(string(big))), model.Int64V(5)).WithAnn(model.S("name")), model.Int64V(6)},
+		}
+		for _, vals := range docs {
+			for _, ch := range []refbin.Chooser{nil, &cycleChooser{k: 1}, &maxChooser{}} {
+				if !yield(encodeDoc(vals, ch)) {
+					return
 				}
 			}
 		}
